@@ -213,6 +213,20 @@ def run(index, tier="quick", seed=0) -> Result:
         res.ok("IQ-1", "Ellipse.iq", sample={"clamped": str(vb.sym)})
     else:
         res.bad("IQ-1", "Ellipse.iq", "coxeter/shapes/ellipse.py", "Ellipse.iq is not min(4 pi A / P^2, 1)")
+    # ------------------------------------------------------------ BR-1 formula branches are selected exactly
+    nbr = 0
+    for (cname, member, kind), evs in sorted(sc.events_by_entry.items()):
+        if cname not in CURVED or kind != "getter" or member in ("gsd_shape_spec",):
+            continue
+        nbr += 1
+        tol = [e for e in evs if e.type == "cmp" and e.form in ("isclose", "allclose") and e.func is not None and e.func.cls is not None
+               and e.func.cls.name in CURVED and e.func.name not in ("is_inside",)]
+        k = f"{cname}.{member}"
+        if tol:
+            res.bad("BR-1", f"{tol[0].func.qualname}:{tol[0].form}", tol[0].where(), f"{k}: a closed form is switched by the tolerance test `{tol[0].src()[:50]}`: "
+                    f"for nearly equal axes (relative gaps far below the tolerance but not zero) the limit formula replaces the general one")
+        else:
+            res.ok("BR-1", k, nontrivial=False)
     # ------------------------------------------------------------ SORT-1
     for cname, member, axes in (("Ellipse", "eccentricity", ("a", "b")), ("Ellipse", "perimeter", ("a", "b")),
                                 ("Ellipsoid", "surface_area", ("a", "b", "c"))):
